@@ -748,6 +748,12 @@ func (r *Raft) SubmitOperation(
 	operationType OperationType,
 	timeout time.Duration,
 ) Future[OperationResponse] {
+	// The operation outlives this call (it is kept in the log and sent to the other nodes
+	// later), the caller's slice does not have to: keep a copy.
+	if operation != nil {
+		operation = append(make([]byte, 0, len(operation)), operation...)
+	}
+
 	switch operationType {
 	case Replicated:
 		return r.submitReplicatedOperation(operation, timeout)
@@ -1889,6 +1895,11 @@ func (r *Raft) applyLoop() {
 				response := OperationResponse{
 					Operation:           operation,
 					ApplicationResponse: r.fsm.Apply(&operation),
+				}
+				// The submitter gets its own copy of the bytes: the slice of the log entry
+				// is still needed, it is sent to nodes that do not have the entry yet.
+				if responseCh != nil && operation.Bytes != nil {
+					response.Operation.Bytes = append(make([]byte, 0, len(operation.Bytes)), operation.Bytes...)
 				}
 				respond(responseCh, response, nil)
 				r.logger.Debugf(
